@@ -33,7 +33,7 @@ CHECKS = {
          "Random output scripts (all writer entry points, arbitrary splits) at random points of sessions; sampled.", "6/C13"),
  "C14": ("fault_enumeration", "exhaustive single-fault injection at every sink call of a scenario corpus (once and permanent) + random faults in generated sessions",
          "Every write/flush call index of every corpus scenario is failed in turn in both modes, then the session continues on a repaired sink; generated sessions extend the corpus.", "6/C14"),
- "C15": ("exploration", "model-based PBT with an unflushed-byte counter in the sink (invariant after every call), also as the oracle of a coverage-guided libFuzzer+ASan target",
+ "C15": ("exploration", "model-based PBT with an unflushed-byte counter in the sink (invariant after every call), also as the oracle of a coverage-guided libFuzzer+ASan target; the same sessions on sinks of other types (zero-sized, large, &mut)",
          "Invariant over call histories; sampled sessions covering every output-producing path.", "6/C15"),
  "C16": ("exploration", "configuration matrix: the runner is built for all 8 feature subsets; model-based PBT per build + metamorphic equality across builds + generated declarations compiled without the help feature",
          "All 8 configurations are built and exercised on every run (exhaustive over configurations); sessions are sampled; generated declarations that use help / -h / --help as ordinary names are compiled with help off and judged by the C09 interpreter.", "6/C16"),
